@@ -29,7 +29,7 @@ from .alpha import binding_order, functions
 _REF = None
 PURE_FUNCS = {'len', 'int', 'float', 'abs', 'min', 'max', 'tuple', 'list', 'bool', 'str', 'bytes', 'bytearray', 'isinstance', 'sorted', 'sum',
               'range', 'any', 'all', 'round', 'ord', 'chr', 'dict', 'set', 'repr', 'hex', 'divmod', 'enumerate', 'zip', 'reversed',
-              'struct.unpack', 'struct.pack', 'struct.calcsize', 'math.sqrt', 'math.radians', 'math.degrees', 'np.array', 'np.linalg.norm'}
+              'struct.unpack', 'struct.pack', 'struct.calcsize', 'math.sqrt', 'math.radians', 'math.degrees', 'np.array', 'np.linalg.norm', 'np.sqrt', 'numpy.sqrt'}
 PURE_METHODS = {'find', 'split', 'strip', 'decode', 'encode', 'upper', 'lower', 'startswith', 'endswith', 'index', 'get', 'keys', 'values',
                 'items', 'format', 'join', 'count', 'isdigit', 'rstrip', 'lstrip', 'partition', 'copy'}
 
